@@ -23,6 +23,7 @@ EXPLANATION = (
     "_KafkaBrokerClient: every cache write in the merge loop is subscripted by the loop's topic (or a "
     "TopicAndPartition built from it); closing of clients carries the must-hold fact `remove`; each except arm "
     "naming a stale-routing class contains the matching reset before its re-raise."
+    " On a full refresh the coordinator cache is purged of brokers just forgotten (or the coordinator lookup validates against the known brokers)."
 )
 SHARED = [('C11', ['R1'], 'a send to an unreachable cached leader fails within the client timeout - the failure is what invalidates the routing'), ('C18', ['R6'], 'the partitioner is given the client\'s whole partition list: a partition without a cached leader is still chosen, sent to, and re-resolved'), ('C14', ['R2'], 'the consumer restores its retry budget after every successful fetch, so a later leader move is retried within it'), ('C10', ['R5'], 'after an outage the broker client reconnects, so producing resumes'),
           ('C07', ['R5'], 'a failed send is recorded as failed whatever the acks setting: that record is what invalidates the cached routing'),
